@@ -6,6 +6,7 @@ CONSTANTS
   VarcharLens <- MC_VarcharLens
   BaseTable = "t1"
   Aliases <- MC_Aliases_S
+  BigInts <- MC_BigInts_S
   ColPool <- MC_ColPool_S
   CondPool <- MC_CondPool_S
   Dbs <- MC_Dbs_S
